@@ -63,6 +63,12 @@ def gen_c01(rnd, n, thorough=False):
                     pts.append((t, value(rnd)))
                     if rnd.chance(0.2):
                         pts.append((rnd.pick(pts)[0], value(rnd)))
+                if rnd.chance(0.2):
+                    # a point that has just expired (by less than one step): it is not stored, and it leaves
+                    # the newest slot (the one it would lap onto) alone
+                    lines.append("upd f %d %d %016x %d" % (a, now, value(rnd, False), now))
+                    pts.insert(rnd.randrange(len(pts) + 1), (now - R - rnd.randint(0, max(S - 1, 0)), value(rnd, False)))
+                    tags['ops']['just_expired'] = tags['ops'].get('just_expired', 0) + 1
                 lines.append(_many('f', a, now, pts))
                 written += [t for t, _ in pts]
                 tags['ops']['many'] = tags['ops'].get('many', 0) + 1
@@ -478,6 +484,25 @@ def gen_c04(rnd, n, thorough=False):
                 big.append("fetch w 0 %d %d %d" % (fr, un, nw))
             big.append("fetch e 0 %d %d %d" % (nw - N, nw, nw))
             cases.append({'id': 'c04-%d-big' % c, 'lines': big, 'tags': {'layout': 'big%d' % N, 'levels': 1, 'fill': 'partial', 'ops': {'fetch': 12}}})
+    # clocks within one step of 2^32 (the aligned end of a window wraps around): the shape is the same function
+    # of layout, window and clock on a never-written archive and on a written one
+    for j in range(3):
+        lname, layout = pick_layout(rnd, random_share=0.5)
+        k = len(layout)
+        S, N = layout[rnd.randrange(k)]
+        now = 2 ** 32 - 1 - rnd.randint(0, max(S - 1, 0))
+        lines = [_create('e', layout, 2, 0), _create('w', layout, 2, 0)]
+        for a_ in range(k):
+            Sa, Na = layout[a_]
+            lines.append(_many('w', a_, now, [(now - q * Sa, small_value(rnd)) for q in range(min(Na, 5))]))
+        for _q in range(6):
+            a_ = rnd.pick([-1] + list(range(k)))
+            Sa, Na = layout[a_ if a_ >= 0 else 0]
+            fr = now - rnd.randint(1, Sa * Na)
+            un = rnd.pick([now, now - rnd.randint(0, Sa), 2 ** 32 - 1])
+            for nm in ('e', 'w'):
+                lines.append("fetch %s %d %d %d %d" % (nm, a_, min(fr, un), un, now))
+        cases.append({'id': 'c04-wrap-%d' % j, 'lines': lines, 'tags': {'layout': lname, 'levels': k, 'fill': 'both', 'ops': {'clock_near_2^32': 12}}})
     # small-scope exhaustive sweeps: EVERY (archive id, from, until) around a small layout, for an
     # aligned and an unaligned clock, on a never-written and on a fully written file
     small = [[(1, 3), (3, 2)]] if not thorough else [[(1, 3)], [(1, 3), (3, 2)], [(1, 4), (2, 4)], [(2, 3), (6, 2)], [(1, 2), (2, 2), (4, 3)]]
@@ -598,6 +623,24 @@ def gen_c05(rnd, n, thorough=False):
             _observe(rnd, lines, layout, list(range(k)), now, nwin=1)
             tags['ops']['unwritable'] = 1
         cases.append({'id': 'c05-%d' % c, 'lines': lines, 'tags': tags})
+    # one long-lived handle over a jump of the clock of more than 2^31 seconds (time differences no longer fit a
+    # signed 32-bit duration), with writes that land on an archive's first slot again: after every Sync a fresh
+    # handle reads what the live handle reads
+    for j in range(2):
+        layout = rnd.pick([[(10, 6)], [(10, 6), (60, 5)], [(7, 9)], [(1, 13), (13, 7)]])
+        S0, N0 = layout[0]
+        t0 = 1000 + rnd.randint(0, 500)
+        lines = [_create('f', layout, 2, 0), "upd f 0 %d %016x %d" % (t0, fbits(1.0), t0), "sync f"]
+        R0 = S0 * N0
+        t1 = t0 + ((2 ** 31 - 1) // R0) * R0       # the last lap of the first slot less than 2^31 s after t0 ...
+        steps = [t1] + [t1 + q * S0 for q in range(1, N0 + 2)] + [t1 + R0 + 3 * S0]      # ... then on past 2^31 s after t0
+        if j == 1:
+            steps = [t0 + 2 ** 31 + rnd.randint(0, 1000) * S0, t1 + 2 * R0, t1 + 2 * R0 + S0]
+        for q, t in enumerate(steps):
+            lines += ["upd f %d %d %016x %d" % (rnd.pick([0, -1]), t, fbits(float(q + 2)), t), "sync f",
+                      "dfetch f 0 %d %d %d" % (t - S0 * N0, t, t), "fetch f 0 %d %d %d" % (t - S0 * N0, t, t)]
+        lines += ["drop f", "open f", "fetch f 0 %d %d %d" % (t - S0 * N0, t, t)]
+        cases.append({'id': 'c05-farjump-%d' % j, 'lines': lines, 'tags': {'layout': 'small', 'levels': len(layout), 'ops': {'far_jump': 1}}})
     # batches of hundreds of points to one archive (more than any internal chunk), on a file that was
     # never synced and on a synced one: nothing reaches the file before Sync
     for j, npts in enumerate([511, 512, 600, 1500] if thorough else [rnd.pick([512, 600]), 1500]):
